@@ -8,6 +8,7 @@ mod rng;
 mod util;
 mod s_cks;
 mod s_pkglen;
+mod s_scalars;
 
 use std::io::{BufRead, Write};
 
@@ -19,6 +20,12 @@ fn streams() -> Vec<(&'static str, GenFn, RunFn)> {
         ("cks", s_cks::gen as GenFn, s_cks::run as RunFn),
         ("pkglen", s_pkglen::gen as GenFn, s_pkglen::run as RunFn),
         ("pkgblk", s_pkglen::gen_blk as GenFn, s_pkglen::run_blk as RunFn),
+        ("int", s_scalars::gen_int as GenFn, s_scalars::run_int as RunFn),
+        ("intblk", s_scalars::gen_intblk as GenFn, s_scalars::run_intblk as RunFn),
+        ("path", s_scalars::gen_path as GenFn, s_scalars::run_path as RunFn),
+        ("eisa", s_scalars::gen_eisa as GenFn, s_scalars::run_eisa as RunFn),
+        ("eisablk", s_scalars::gen_eisablk as GenFn, s_scalars::run_eisablk as RunFn),
+        ("uuid", s_scalars::gen_uuid as GenFn, s_scalars::run_uuid as RunFn),
     ]
 }
 
